@@ -21,8 +21,12 @@ from pvc.core import explore, Unsupported, PathEnd  # noqa: E402
 from pvc.units import UNITS  # noqa: E402
 from pvc import models as _models  # noqa: E402
 
+_RT = ["contracts.runtime"]
 CONTRACT_MODULES = {
     "C12": ["contracts.c12"],
+    "C04": ["contracts.c12"] + _RT,
+    "C02": _RT + ["contracts.overlay"], "C16": _RT, "C01": _RT,
+    "C03": ["contracts.overlay"], "C07": ["contracts.overlay"],
 }
 
 UNIT_WALL_BUDGET = {"quick": 150, "thorough": 600}
